@@ -29,6 +29,7 @@ func try(args []string) {
 	n := fs.Int("n", 100, "")
 	seed := fs.Uint64("seed", 1, "")
 	verbose := fs.Bool("v", false, "")
+	one := fs.Uint64("one", 0, "run this single run seed and print its trace")
 	fs.Parse(args)
 	p := &harness.Profile{MinTasks: 2, MaxTasks: 3, MinOps: 3, MaxOps: 6, InitMax: 4, Logs: true, AutoP: 0.5, HandlesPerTask: 3,
 		RefsPerTxn: [2]int{0, 3}, LogsPerTxn: [2]int{0, 2}, SkipNameCheckP: 0.3,
@@ -36,8 +37,15 @@ func try(args []string) {
 	sigs := map[string]int{}
 	first := map[string]string{}
 	steps := 0
+	if *one != 0 {
+		*n = 1
+		*verbose = true
+	}
 	for i := 0; i < *n; i++ {
 		s := simrt.Hash4(*seed, *scen, uint64(i), 0)
+		if *one != 0 {
+			s = *one
+		}
 		var spec *harness.RunSpec
 		if *scen == "turn" {
 			spec = harness.GenTurn("X", s, p)
@@ -46,6 +54,11 @@ func try(args []string) {
 		}
 		res := harness.Execute(spec, harness.RunOpts{StopOn: "*", KeepLog: *verbose})
 		steps += res.Steps
+		if *one != 0 {
+			for _, l := range res.Trace {
+				fmt.Println(l)
+			}
+		}
 		for _, v := range res.Violations {
 			sigs[v.Signature]++
 			if _, ok := first[v.Signature]; !ok {
